@@ -6,7 +6,6 @@ import (
 	"fmt"
 	"math/bits"
 	"math/rand"
-	"regexp"
 	"strings"
 	"unicode"
 )
@@ -113,17 +112,22 @@ func (s *seq) Length() int {
 func (s *seq) LongestORF() (start, end int) {
 	start = -1
 	end = -1
-	re, _ := regexp.Compile("(ATG)(.{3})*?(TAA|TGA|TAG)")
-	//re.Longest()
-	idx := re.FindAllStringIndex(
-		strings.Replace(
-			strings.ToUpper(string(s.sequence)),
-			"U", "T", -1),
-		-1)
-	for _, pos := range idx {
-		if pos[1]-pos[0] > end-start {
-			end = pos[1]
-			start = pos[0]
+	sq := strings.Replace(
+		strings.ToUpper(string(s.sequence)),
+		"U", "T", -1)
+	// Every ATG is a candidate start, whatever its frame: ORFs of different
+	// frames may overlap, so non-overlapping regexp matches miss some of them
+	for i := 0; i+3 <= len(sq); i++ {
+		if sq[i:i+3] != "ATG" {
+			continue
+		}
+		for j := i + 3; j+3 <= len(sq); j += 3 {
+			if c := sq[j : j+3]; c == "TAA" || c == "TGA" || c == "TAG" {
+				if j+3-i > end-start {
+					start, end = i, j+3
+				}
+				break
+			}
 		}
 	}
 	return start, end
